@@ -94,6 +94,33 @@ def feasible_shape(ctx, rule='A5'):
            'begin with', short(tests[0].ast) if tests else 'missing')
 
 
+def _returned_and_merged(ctx, f_, h):
+    """The handler returns (.., e.removed_nodes, .., e.edges, ..) and every caller of the function in the package merges
+    the corresponding elements of the result into sets of its own (tuple unpacking followed by `x |= name` /
+    `x.update(name)`)."""
+    rets = [r for r in h.body if isinstance(r, ast.Return) and isinstance(r.value, ast.Tuple)]
+    if not rets:
+        return False
+    elts = [norm(x) for x in rets[0].value.elts]
+    if f'{h.name}.removed_nodes' not in elts or f'{h.name}.edges' not in elts:
+        return False
+    need = {elts.index(f'{h.name}.removed_nodes'), elts.index(f'{h.name}.edges')}
+    sites = [(g, c) for g in ctx.prog.all_functions() for c in calls(g, f_.name)]
+    if not sites:
+        return False
+    for g, c in sites:
+        st = next((a for a in walk_fn(g) if isinstance(a, ast.Assign) and a.value is c and
+                   isinstance(a.targets[0], ast.Tuple) and len(a.targets[0].elts) == len(elts)), None)
+        if st is None:
+            return False
+        names = [norm(t) for t in st.targets[0].elts]
+        merged = {norm(a.value) for a in walk_fn(g) if isinstance(a, ast.AugAssign) and isinstance(a.op, ast.BitOr)} | \
+            {norm(x.args[0]) for x in calls(g, 'update') if x.args}
+        if not all(names[i] in merged for i in need):
+            return False
+    return True
+
+
 def handlers(ctx, rule='A9e'):
     n = 0
     for fn in ctx.prog.all_functions():
@@ -112,7 +139,8 @@ def handlers(ctx, rule='A9e'):
                     if not ok:
                         detail = f'the tabled handler is no longer a bare pass: {body[:80]}'
                 elif h.name and f'{h.name}.removed_nodes' in body and f'{h.name}.edges' in body:
-                    ok = '|=' in body
+                    # accumulated into the modification here, or handed back to the caller (a helper wrapping the call)
+                    ok = '|=' in body or '.update(' in body or _returned_and_merged(ctx, fn, h)
                     detail = 'transfers e.removed_nodes and e.edges into the modification'
                 elif 'False' in body and ('is_feasible' in body or 'feasible' in body):
                     ok = True
@@ -133,7 +161,7 @@ def handlers(ctx, rule='A9e'):
                 if 'IncompatibilityError' in handler_type_names(h) and h.name:
                     body = ' '.join(norm(x) for x in h.body)
                     if f'{h.name}.edges' in body and f'{h.name}.removed_nodes' in body and \
-                            ('|=' in body or '.update(' in body):
+                            ('|=' in body or '.update(' in body or _returned_and_merged(ctx, f_, h)):
                         ok = True
     ctx.ob(rule, fkey(fn, rule, 'conflict-becomes-marker-edges'), ok, fn.where,
            'on a conflict while applying a choice the conflicting edges are *added* to the derived graph (they '
